@@ -44,4 +44,105 @@ PROPS = {
         "quick": box(16, 400, 25, floor_evaluations=200, floor_shapes=20),
         "thorough": box(16, 12000, 420, floor_evaluations=2000, floor_shapes=50),
     },
+    "C08": {
+        "level": "exploration",
+        "technique": "runtime monitoring: exact rotation-partition model (size > N checked before "
+                     "each write, seeded from the existing file on append) vs. observed file "
+                     "contents in rotation order",
+        "level_text": "Held on the executions explored: for seeded sequences of line lengths around "
+                      "the limit (0, 1, N-1, N, N+1, 5N; LF/CRLF), N from 0 to 1000, all naming "
+                      "schemes, sync modes with buffer capacities below/at/above N and async mode, "
+                      "fresh and append-to-existing starts, the observed partition of the records "
+                      "into files equals the model's partition exactly (after every flush and "
+                      "after shutdown). Exploration of sampled inputs, not proof.",
+        "level_note": "Trusted: the 15-line partition model, the family parser, the virtual clock "
+                      "(frozen, so the age part of AgeOrSize stays inactive).",
+        "rule": "cases = seeded (N, naming, write mode, line ending, start state, length sequence); "
+                "non-trivial iff at least one rotation was caused by the size criterion and at "
+                "least one partition comparison was evaluated; distinct = distinct shape keys "
+                "(driver level, naming, criterion kind, N, write-mode kind, line ending, start "
+                "state, rotation bucket)",
+        "assumptions": COMMON_ASSUMPTIONS,
+        "quick": box(16, 500, 25, floor_evaluations=200, floor_shapes=20),
+        "thorough": box(16, 15000, 420, floor_evaluations=2000, floor_shapes=50),
+    },
+    "C06": {
+        "level": "exploration",
+        "technique": "runtime monitoring: persistent segment model across restarts (append on/off, "
+                     "all namings, cleanup incl. compression, same-second restarts, mutated "
+                     "directories) vs. observed (decompressed) file contents + name->content "
+                     "history monitor",
+        "level_text": "Held on the executions explored: after every run of a seeded multi-run "
+                      "history the ordered list of (gunzipped) file contents equals the model "
+                      "(everything ever written minus the documented truncation), with a cleanup "
+                      "strategy a contiguous newest tail at least as long as the limits permit; no "
+                      "rotated file name ever re-appears with content that does not extend what it "
+                      "held. Exploration of sampled histories, not proof.",
+        "level_note": "Trusted: segment model (Appendix B), family parser, virtual clock + "
+                      "creation-time table. 'Current file removed' is only generated where the "
+                      "resulting starting state is well defined (not for direct namings with "
+                      "cleanup).",
+        "rule": "cases = seeded histories of 2-6 runs (writes/rotations, stop, clock step, optional "
+                "directory mutation, restart with append on/off); non-trivial iff at least one "
+                "restart happened, at least 2 records were logged and at least 2 comparisons "
+                "evaluated; distinct = shape keys (driver level, naming, criterion, cleanup, write "
+                "mode, time zone, use_utc, same-second restart seen, mutation seen, rotation bucket)",
+        "assumptions": COMMON_ASSUMPTIONS + ["time zones: UTC, Asia/Kolkata, America/Caracas, "
+                                             "Asia/Kathmandu (fixed offsets), chosen per shard"],
+        "quick": box(16, 400, 25, floor_evaluations=200, floor_shapes=20),
+        "thorough": box(16, 12000, 420, floor_evaluations=2000, floor_shapes=50),
+    },
+    "C07": {
+        "level": "exploration",
+        "technique": "runtime monitoring: survivor-set oracle (limits, contiguous newest tail of the "
+                     "logged stream, gzip round trip, current file spared) after each rotation "
+                     "(sync cleanup) or after shutdown (background / async-writer cleanup, with "
+                     "scheduling noise at the cleanup hook points)",
+        "level_text": "Held on the executions explored: for seeded histories of writes, rotations "
+                      "(incl. several per virtual second) and restarts under KeepLogFiles / "
+                      "KeepCompressedFiles / KeepLogAndCompressedFiles (limits 0..5), all namings, "
+                      "suffixes sorting before/after 'restart' and none, the surviving files are "
+                      "within the limits, form the newest contiguous tail of the logged stream, "
+                      "every .gz decodes to its segment, compressed files are the older ones, the "
+                      "current file is plain and present. Background-thread interleavings are "
+                      "sampled (noise), not enumerated.",
+        "level_note": "Trusted: never-trimming segment model + survivor bounds (Appendix C: lower "
+                      "bound min(R,k+m) minus one for direct namings), family parser. Async mode: "
+                      "size criterion only and no explicit rotations (their ordering is C15's).",
+        "rule": "cases = seeded (configuration x history); non-trivial iff more rotated segments "
+                "were produced than the limits keep (so cleanup had to act) and at least one "
+                "survivor comparison was evaluated; distinct = shape keys (driver level, naming, "
+                "strategy with limits bucketed, suffix class, thread that runs the cleanup, "
+                "criterion, same-second files seen, restart seen)",
+        "assumptions": COMMON_ASSUMPTIONS,
+        "quick": box(16, 400, 25, floor_evaluations=200, floor_shapes=20),
+        "thorough": box(16, 12000, 420, floor_evaluations=2000, floor_shapes=50),
+    },
+    "C09": {
+        "level": "exploration",
+        "technique": "runtime monitoring: virtual clock + creation-time table; period-partition model "
+                     "and infix oracle over write instants straddling second/minute/hour/day/month/"
+                     "year boundaries in four time zones; real-time Age::Second cross-check without "
+                     "the clock hook",
+        "level_text": "Held on the executions explored: the observed partition of the records into "
+                      "files equals the model's (rotation exactly at the first write in a later "
+                      "period, age-or-size combined), and every timestamp-named file carries the "
+                      "instant at which its content was started; append-restarts continue or rotate "
+                      "according to the current file's period. The real-time run checks the "
+                      "file-metadata path: no file holds unambiguous records of two seconds, no "
+                      "rotation between neighbouring records of one second.",
+        "level_note": "Trusted: partition model, family parser, the hooks (every Local::now() of the "
+                      "file writer and the creation-time lookup). DST gaps are outside the sampled "
+                      "space (fixed-offset zones).",
+        "rule": "cases = seeded (Age, naming, write mode, use_utc, history of writes / clock steps / "
+                "flushes / triggers / append-restarts) starting near a period boundary; non-trivial "
+                "iff at least one rotation was caused by the criterion and at least one partition "
+                "comparison evaluated (real-time case: >= 3 files and >= 10 same-second pairs "
+                "judged); distinct = shape keys (driver level, naming, criterion, write mode, zone "
+                "offset, utc/local, append-restart seen, rotation bucket)",
+        "assumptions": COMMON_ASSUMPTIONS + ["time zones: UTC, Asia/Kolkata, America/Caracas, "
+                                             "Asia/Kathmandu (fixed offsets), chosen per shard"],
+        "quick": box(16, 400, 25, floor_evaluations=200, floor_shapes=20),
+        "thorough": box(16, 12000, 420, floor_evaluations=2000, floor_shapes=50),
+    },
 }
